@@ -241,7 +241,10 @@ def wrappers(ctx):
                        ('midi_file_to_sequence_proto', 'midi_file_to_note_sequence')):
     fi = ctx.func('midi_io:' + name)
     calls = [dotted(c.func) for c in U.calls_in(fi.node)]
-    extra = [c for c in calls if c not in (target, 'open', 'f.read')]
+    # the file object is whatever name the `with open(...) as <name>` binds
+    fobj = [it.optional_vars.id for w_ in ast.walk(fi.node) if isinstance(w_, ast.With) for it in w_.items
+            if isinstance(it.optional_vars, ast.Name) and isinstance(it.context_expr, ast.Call) and dotted(it.context_expr.func) == 'open']
+    extra = [c for c in calls if c not in (target, 'open') and c not in ['%s.read' % n_ for n_ in fobj]]
     raises = [n for n in ast.walk(fi.node) if isinstance(n, ast.Raise)]
     ok = target in calls and not extra and not raises
     ctx.ob('ESC/wrapper', fi, fi.node, ok, '%s only reads the file and delegates to %s' % (name, target) if ok else
